@@ -12,7 +12,7 @@ use vh::{run_main, Ctx, Local};
 
 fn pool() -> Vec<String> {
     let mut v = vec![];
-    let spec: [(&str, &[&str]); 13] = [
+    let spec: [(&str, &[&str]); 15] = [
         ("a", &["", ":5", ":10", ":-1", ":x", ":", ":0", ":100"]),
         ("b", &["", ":5", ":10", ":-5", ":9"]),
         ("a-alias", &["", ":10"]),
@@ -28,6 +28,9 @@ fn pool() -> Vec<String> {
         ("leak", &[":3"]),
         ("bad2", &[":4"]),
         ("bad", &[":4"]),
+        // identifiers of two resources rejected because their name / alias is a loaded identifier
+        ("shadow", &[":3"]),
+        ("bad3", &[":4"]),
     ];
     for opt in ["redirect", "redirect-rule"] {
         for (res, sufs) in spec.iter() {
